@@ -541,6 +541,73 @@ theorem setBackward_leaves_views (bk : Bool) (it : It σ) (h : it.WF) (hd : it.d
     simp only [setBackward, hb, if_false, release, leaves, List.map_append, release_leaves]
     rw [map_view_release _ wa', map_view_release _ wb', ha', hb']
 
+/-! ## re-positioning a cursor (`crsr.ApplyState`)
+
+`ApplyState` moves the journal iterators (`SetPos`) behind the mixers' back and then switches the whole tree backward and
+forward again. `Release` would not do: the selections survive it. A real direction switch makes every mixer forget everything
+(`eof` flags, `st`, whatever the buffers hold), *whatever* its state was — the tree need not be well formed before. -/
+
+/-- all the switch needs: well-formed sources, everything running in direction `d`; nothing about what the mixers remember -/
+def DirOK (d : Bool) : It σ → Prop
+  | .leaf s => LawfulSource.wf s ∧ LawfulSource.dir s = d
+  | .mix m a b => m.bkwd = d ∧ a.DirOK d ∧ b.DirOK d
+
+theorem WF_DirOK (it : It σ) (h : it.WF) : it.DirOK it.dir := by
+  induction it with
+  | leaf s => exact ⟨h, rfl⟩
+  | mix m a b iha ihb =>
+    obtain ⟨wa, wb, da, db, _⟩ := h
+    have ha := iha wa
+    have hb := ihb wb
+    rw [da] at ha; rw [db] at hb
+    exact ⟨rfl, ha, hb⟩
+
+theorem mapLeaves_DirOK (g : σ → σ) (d : Bool) (it : It σ) (h : it.DirOK d)
+    (hg : ∀ s ∈ it.leaves, LawfulSource.wf (g s) ∧ LawfulSource.dir (g s) = d) : (it.mapLeaves g).DirOK d := by
+  induction it with
+  | leaf s => exact hg s (by simp [leaves])
+  | mix m a b iha ihb =>
+    exact ⟨h.1, iha h.2.1 (fun s hs => hg s (by simp [leaves, hs])), ihb h.2.2 (fun s hs => hg s (by simp [leaves, hs]))⟩
+
+/-- a real direction switch yields a well-formed tree from any mixer states -/
+theorem setBackward_of_DirOK (bk d : Bool) (it : It σ) (h : it.DirOK d) (hd : d ≠ bk) :
+    (it.setBackward bk).WF ∧ (it.setBackward bk).dir = bk := by
+  induction it with
+  | leaf s =>
+    have := LawfulSource.setBackward_spec bk s h.1
+    simpa [setBackward, WF, dir] using this
+  | mix m a b iha ihb =>
+    obtain ⟨hm, ha, hb⟩ := h
+    have hne : m.bkwd ≠ bk := hm ▸ hd
+    obtain ⟨sa, sad⟩ := iha ha
+    obtain ⟨sb, sbd⟩ := ihb hb
+    obtain ⟨_, raw, rad, _⟩ := release_spec _ sa
+    obtain ⟨_, rbw, rbd, _⟩ := release_spec _ sb
+    simp only [setBackward, hne, if_false, release, WF, dir]
+    exact ⟨⟨raw, rbw, rad.trans sad, rbd.trans sbd, by simp, by simp, by simp⟩, trivial⟩
+
+/-- the sources after the switch, seen through any observation `F` that `Release` does not change -/
+theorem setBackward_leaves_map {β : Type} (F : σ → β)
+    (hF : ∀ s, LawfulSource.wf s → F (Source.release s) = F s)
+    (bk d : Bool) (it : It σ) (h : it.DirOK d) (hd : d ≠ bk) :
+    (it.setBackward bk).leaves.map F = it.leaves.map (fun s => F (Source.setBackward bk s)) := by
+  have mapF : ∀ l : List σ, (∀ s ∈ l, LawfulSource.wf s) → (l.map Source.release).map F = l.map F := by
+    intro l hl
+    induction l with
+    | nil => rfl
+    | cons x xs ih =>
+      simp only [List.map_cons]
+      rw [hF x (hl x (by simp)), ih (fun s hs => hl s (by simp [hs]))]
+  induction it with
+  | leaf s => simp [setBackward, leaves]
+  | mix m a b iha ihb =>
+    obtain ⟨hm, ha, hb⟩ := h
+    have hne : m.bkwd ≠ bk := hm ▸ hd
+    have wa' := WF_leaves _ (setBackward_of_DirOK bk d a ha hd).1
+    have wb' := WF_leaves _ (setBackward_of_DirOK bk d b hb hd).1
+    simp only [setBackward, hne, if_false, release, leaves, List.map_append, release_leaves]
+    rw [mapF _ wa', mapF _ wb', iha ha, ihb hb]
+
 /-! ## appends behind a page boundary
 
 Between two pages of one read (`crsr.commit`, `WaitNewData`) the cursor is `Release`d and writers may append to the
